@@ -36,6 +36,115 @@ type c02Gen struct {
 	// (see bigOp); cfg is the configuration the program will run under.
 	big bool
 	cfg c02SrvCfg
+	// opt: the options the program will run under. A read-only server opens read and directory handles only, and the
+	// WRITEs of the program then go to those (every one of them is refused); with a working / start directory every
+	// path is sent in its relative form, one in four in its absolute form nonetheless; with handlers that lack
+	// optional interfaces one request in four is of a kind whose handling depends on them.
+	opt   c02Opt
+	alloc bool // WithAllocator / WithRSAllocator (programs outside the big-reply family, whose configuration is cfg)
+}
+
+// c02Opt is what a server is started with besides c02SrvCfg: ReadOnly() (os-backed), WithServerWorkingDirectory /
+// WithStartDirectory, and (request server) the optional interfaces the handlers do not implement.
+type c02Opt struct {
+	ReadOnly bool
+	WorkDir  bool
+	Ifaces   gIfaces
+}
+
+func (o c02Opt) zero() bool { return o == c02Opt{} }
+
+func (o c02Opt) tokens() []string {
+	var t []string
+	if o.ReadOnly {
+		t = append(t, "readonly")
+	}
+	if o.WorkDir {
+		t = append(t, "workdir")
+	}
+	return append(t, o.Ifaces.tokens()...)
+}
+
+func (o c02Opt) text() string {
+	if t := o.tokens(); len(t) > 0 {
+		return strings.Join(t, "+")
+	}
+	return "none"
+}
+
+func (o c02Opt) apply(p *gProg) { p.ReadOnly, p.WorkDir, p.Ifaces = o.ReadOnly, o.WorkDir, o.Ifaces }
+
+func c02OptOf(p gProg) c02Opt { return c02Opt{p.ReadOnly, p.WorkDir, p.Ifaces} }
+
+// c02IfaceSets: every interface present; each one lacking alone; RealPath in its legacy form; all lacking (with
+// no RealPath at all, and with the legacy one).
+func c02IfaceSets(all bool) []gIfaces {
+	if all { // the full product: 2^5 x 3
+		var out []gIfaces
+		for m := 0; m < 32; m++ {
+			for _, rp := range []string{"", "legacy", "none"} {
+				out = append(out, gIfaces{NoStatVFS: m&1 != 0, NoPosixRename: m&2 != 0, NoLstat: m&4 != 0, NoOpenFile: m&8 != 0, NoReadlink: m&16 != 0, RealPath: rp})
+			}
+		}
+		return out
+	}
+	return []gIfaces{{}, {NoStatVFS: true}, {NoPosixRename: true}, {NoLstat: true}, {NoOpenFile: true}, {NoReadlink: true}, {RealPath: "none"}, {RealPath: "legacy"},
+		{NoStatVFS: true, NoPosixRename: true, NoLstat: true, NoOpenFile: true, NoReadlink: true, RealPath: "none"},
+		{NoStatVFS: true, NoPosixRename: true, NoLstat: true, NoOpenFile: true, NoReadlink: true, RealPath: "legacy"}}
+}
+
+// c02Opts lists the option combinations of a server: os-backed ReadOnly x working directory; request server start
+// directory x handler sets (the ten of c02IfaceSets, or all 96).
+func c02Opts(server string, allIfaces bool) []c02Opt {
+	var out []c02Opt
+	if server == "os" {
+		for _, ro := range []bool{false, true} {
+			for _, wd := range []bool{false, true} {
+				out = append(out, c02Opt{ReadOnly: ro, WorkDir: wd})
+			}
+		}
+		return out
+	}
+	for _, wd := range []bool{false, true} {
+		for _, i := range c02IfaceSets(allIfaces) {
+			out = append(out, c02Opt{WorkDir: wd, Ifaces: i})
+		}
+	}
+	return out
+}
+
+// c02Deck deals (option combination, allocator) pairs: every pair once, in PRNG order, then again.
+type c02Deck struct {
+	rng  *rand.Rand
+	all  []c02Deal
+	left []c02Deal
+}
+
+type c02Deal struct {
+	Opt   c02Opt
+	Alloc bool
+}
+
+// newC02Deck: keep (when not nil) says which option combinations take part.
+func newC02Deck(rng *rand.Rand, server string, allIfaces bool, keep func(c02Opt) bool) *c02Deck {
+	d := &c02Deck{rng: rng}
+	for _, o := range c02Opts(server, allIfaces) {
+		if keep != nil && !keep(o) {
+			continue
+		}
+		d.all = append(d.all, c02Deal{o, false}, c02Deal{o, true})
+	}
+	return d
+}
+
+func (d *c02Deck) next() c02Deal {
+	if len(d.left) == 0 {
+		d.left = append([]c02Deal(nil), d.all...)
+		d.rng.Shuffle(len(d.left), func(a, b int) { d.left[a], d.left[b] = d.left[b], d.left[a] })
+	}
+	x := d.left[0]
+	d.left = d.left[1:]
+	return x
 }
 
 // c02SrvCfg is a server configuration: WithAllocator / WithRSAllocator and WithMaxTxPacket / WithRSMaxTxPacket.
@@ -155,6 +264,24 @@ func newC02Gen(rng *rand.Rand, server string) *c02Gen {
 	return g
 }
 
+// newC02OptGen: the generator of programs for a server started with opt.
+func newC02OptGen(rng *rand.Rand, server string, opt c02Opt) *c02Gen {
+	g := newC02Gen(rng, server)
+	g.setOpt(opt)
+	return g
+}
+
+func (g *c02Gen) setOpt(opt c02Opt) {
+	g.opt = opt
+	if opt.ReadOnly { // handles opened for writing do not exist
+		for _, h := range c02AllHandles {
+			if h.Kind == "put" || h.Kind == "rw" {
+				g.state[h.Name] = "absent"
+			}
+		}
+	}
+}
+
 // newC02BigGen: the generator of the big-reply family, for a server that will run with cfg.
 func newC02BigGen(rng *rand.Rand, server string, cfg c02SrvCfg) *c02Gen {
 	g := newC02Gen(rng, server)
@@ -204,6 +331,9 @@ func (g *c02Gen) writeOp(h string) gOp {
 	if h == "x0" {
 		o.Off += 70000
 	}
+	if g.opt.ReadOnly { // far from every offset that is read, so that a WriteAt that does happen has a key of its own
+		o.Off += 1_000_000
+	}
 	return o
 }
 
@@ -220,6 +350,9 @@ func (g *c02Gen) op(i int) gOp {
 	for {
 		o, ok := g.try(i)
 		if ok {
+			if g.opt.WorkDir && o.P != "" && g.rng.Intn(4) == 0 {
+				o.Abs = true
+			}
 			if o.H != "" && o.H != "bogus" {
 				g.used[o.H] = true
 			}
@@ -251,7 +384,10 @@ func (g *c02Gen) try(i int) (gOp, bool) {
 	if g.big && g.rng.Intn(5) == 0 {
 		return g.bigOp(i)
 	}
-	r := g.rng.Intn(100)
+	if !g.opt.Ifaces.zero() && g.rng.Intn(4) == 0 {
+		return g.ifaceOp(i)
+	}
+	r := g.rng.Intn(104)
 	miss := g.rng.Intn(4) == 0
 	name := func(prefix string) string {
 		if miss {
@@ -268,6 +404,9 @@ func (g *c02Gen) try(i int) (gOp, bool) {
 		return g.readOp(h), true
 	case r < 38:
 		h := g.pick("w0", "x0")
+		if g.opt.ReadOnly {
+			h = g.pick("r0", "r1", "d0")
+		}
 		if h == "" {
 			return gOp{}, false
 		}
@@ -296,7 +435,7 @@ func (g *c02Gen) try(i int) (gOp, bool) {
 		return gOp{K: "readdir", H: h}, true
 	case r < 57:
 		h := g.pick("r0", "r1", "w0", "x0")
-		if h == "" || g.noTime {
+		if h == "" || (g.noTime && !g.opt.ReadOnly) { // a read-only server refuses it: nothing changes
 			return gOp{}, false
 		}
 		return gOp{K: "fsetstat", H: h, AF: []uint32{0, wire.APerm}[g.rng.Intn(2)]}, true
@@ -365,6 +504,15 @@ func (g *c02Gen) try(i int) (gOp, bool) {
 			h = "bogus"
 		}
 		return gOp{K: "fsync", H: h}, true
+	case r >= 100: // OPEN for reading and writing / for writing with creation, inside the pipeline
+		if r < 102 {
+			p := "s1"
+			if miss {
+				p = fmt.Sprintf("missing%d", i)
+			}
+			return gOp{K: "openrw", P: p}, true
+		}
+		return gOp{K: "openw", P: fmt.Sprintf("ow%d", i)}, true
 	case r < 96:
 		k := []string{"read", "write", "close", "fstat", "readdir", "fsetstat"}[g.rng.Intn(6)]
 		o := gOp{K: k, H: g.badHandle(), Len: 10}
@@ -380,11 +528,46 @@ func (g *c02Gen) try(i int) (gOp, bool) {
 		type mm struct{ k, h string }
 		all := []mm{{"read", "mw"}, {"read", "md"}, {"write", "mr"}, {"write", "md"}, {"readdir", "mr"}, {"readdir", "mw"}, {"readdir", "mx"}}
 		m := all[g.rng.Intn(len(all))]
-		if g.misUsed[m.h] {
+		if g.misUsed[m.h] || g.state[m.h] != "open" {
 			return gOp{}, false
 		}
 		g.misUsed[m.h] = true
 		return gOp{K: m.k, H: m.h, Off: 0, Len: 16}, true
+	}
+}
+
+// ifaceOp draws a request of a kind whose handling depends on an optional handler interface.
+func (g *c02Gen) ifaceOp(i int) (gOp, bool) {
+	miss := g.rng.Intn(4) == 0
+	pth := func(p string) string {
+		if miss {
+			return fmt.Sprintf("missing%d", i)
+		}
+		return p
+	}
+	switch g.rng.Intn(8) {
+	case 0:
+		return gOp{K: "statvfs", P: pth("s0")}, true
+	case 1:
+		return gOp{K: "posixrename", P: pth(fmt.Sprintf("pr%d", i)), P2: fmt.Sprintf("pr%d.to", i)}, true
+	case 2:
+		return gOp{K: "lstat", P: pth([]string{"s0", "sd", "lnk"}[g.rng.Intn(3)])}, true
+	case 3:
+		return gOp{K: "readlink", P: pth("lnk")}, true
+	case 4:
+		return gOp{K: "realpath", P: []string{"s0", "sd/../s1", "missing/x"}[g.rng.Intn(3)]}, true
+	case 5:
+		return gOp{K: "openrw", P: pth("s1")}, true
+	case 6:
+		if g.state["x0"] != "open" {
+			return gOp{}, false
+		}
+		return g.readOp("x0"), true
+	default:
+		if g.state["x0"] != "open" {
+			return gOp{}, false
+		}
+		return g.writeOp("x0"), true
 	}
 }
 
@@ -401,18 +584,30 @@ func (g *c02Gen) parallelProgram(n int, idStyle string) gProg {
 		switch {
 		case i == cmdAt && g.server == "rs":
 			o = []gOp{{K: "stat", P: "s0"}, {K: "lstat", P: fmt.Sprintf("missing%d", i)}, {K: "mkdir", P: fmt.Sprintf("mk%d", i)}, {K: "fstat", H: "r0"},
-				{K: "readdir", H: "d0"}, {K: "open", P: "s1"}, {K: "statvfs", P: "s0"}, {K: "realpath", P: "s0"}, {K: "fsetstat", H: "w0", AF: wire.APerm}}[g.rng.Intn(9)]
+				{K: "readdir", H: "d0"}, {K: "open", P: "s1"}, {K: "statvfs", P: "s0"}, {K: "realpath", P: "s0"}, {K: "fsetstat", H: "w0", AF: wire.APerm},
+				{K: "lstat", P: "s0"}, {K: "posixrename", P: fmt.Sprintf("pr%d", i), P2: fmt.Sprintf("pr%d.to", i)}, {K: "readlink", P: "lnk"}, {K: "openrw", P: "s1"}}[g.rng.Intn(13)]
 		case i == cmdAt:
-			o = []gOp{{K: "fstat", H: "r0"}, {K: "readdir", H: "d2"}, {K: "fsetstat", H: "w0", AF: wire.APerm}, {K: "readdir", H: "r1"}}[g.rng.Intn(4)]
+			fs := gOp{K: "fsetstat", H: "w0", AF: wire.APerm}
+			if g.opt.ReadOnly {
+				fs.H = "r0"
+			}
+			o = []gOp{{K: "fstat", H: "r0"}, {K: "readdir", H: "d2"}, fs, {K: "readdir", H: "r1"}}[g.rng.Intn(4)]
 		case g.rng.Intn(5) < 3:
 			o = g.readOp(g.pick("r0", "r1", "x0"))
+		case g.opt.ReadOnly:
+			o = g.writeOp(g.pick("r0", "r1"))
 		default:
 			o = g.writeOp(g.pick("w0", "x0"))
+		}
+		if g.opt.WorkDir && o.P != "" && g.rng.Intn(4) == 0 {
+			o.Abs = true
 		}
 		p.Ops = append(p.Ops, o)
 	}
 	gAssignIDs(&p, g.rng, idStyle)
 	p.Handles = gUsedHandles(p)
+	g.opt.apply(&p)
+	p.Alloc = g.alloc
 	return p
 }
 
@@ -424,9 +619,11 @@ func (g *c02Gen) program(n int, idStyle string) gProg {
 	}
 	gAssignIDs(&p, g.rng, idStyle)
 	p.Handles = gUsedHandles(p)
+	p.Alloc = g.alloc
 	if g.big {
 		p.Alloc, p.MaxTx = g.cfg.Alloc, g.cfg.MaxTx
 	}
+	g.opt.apply(&p)
 	return p
 }
 
@@ -539,6 +736,79 @@ func c02Fixed(server string) []gProg {
 	return out
 }
 
+// c02FixedRO are hand-written pipelines for an os-backed server started with ReadOnly(): requests the server
+// refuses by itself stand between READs (and other served requests) whose calls are held, so that the refusal is
+// ready long before the replies in front of it; then every refused kind alone in the stream.
+func c02FixedRO() []gProg {
+	mk := func(ops ...gOp) gProg {
+		p := gProg{Server: "os", ReadOnly: true, Ops: ops}
+		for i := range p.Ops {
+			p.Ops[i].ID = uint32(0x53000000 + 11*(len(ops)-i))
+		}
+		p.Handles = gUsedHandles(p)
+		return p
+	}
+	far := int64(1_000_000)
+	out := []gProg{
+		mk(gOp{K: "read", H: "r0", Off: 0, Len: 4096}, gOp{K: "write", H: "r0", Off: far, Len: 100}, gOp{K: "read", H: "r1", Off: 5, Len: 1}, gOp{K: "mkdir", P: "mk3"}),
+		mk(gOp{K: "fsetstat", H: "r0", AF: wire.APerm}, gOp{K: "read", H: "r0", Off: 7, Len: 300}, gOp{K: "readdir", H: "d0"}, gOp{K: "remove", P: "rm3"}),
+		mk(gOp{K: "write", H: "bogus", Off: far, Len: 10}, gOp{K: "read", H: "r0", Off: 64, Len: 64}, gOp{K: "fstat", H: "r1"}, gOp{K: "rename", P: "rn3", P2: "rn3.to"}),
+		mk(gOp{K: "openw", P: "ow0"}, gOp{K: "read", H: "r0", Off: 1, Len: 1}, gOp{K: "openrw", P: "s1"}, gOp{K: "open", P: "s1"}),
+		mk(gOp{K: "read", H: "r0", Off: 3, Len: 9}, gOp{K: "setstat", P: "ss1", AF: wire.APerm}, gOp{K: "symlink", P: "s0", P2: "sl2"}, gOp{K: "read", H: "r1", Off: 0, Len: 32768},
+			gOp{K: "posixrename", P: "pr4", P2: "pr4.to"}, gOp{K: "hardlink", P: "hl5", P2: "hl5.to"}, gOp{K: "read", H: "r0", Off: 599990, Len: 100}),
+		mk(gOp{K: "write", H: "r0", Off: far, Len: 32768}, gOp{K: "write", H: "d0", Off: far, Len: 1}, gOp{K: "read", H: "r0", Off: 100, Len: 4096}, gOp{K: "write", H: "stale", Off: far, Len: 1},
+			gOp{K: "rmdir", P: "rd4"}, gOp{K: "close", H: "r0"}),
+	}
+	single := []gOp{{K: "write", H: "r0", Off: far, Len: 16}, {K: "fsetstat", H: "r0"}, {K: "setstat", P: "ss0", AF: wire.APerm}, {K: "remove", P: "rm0"}, {K: "mkdir", P: "mk0"}, {K: "rmdir", P: "rd0"},
+		{K: "rename", P: "rn0", P2: "rn0.to"}, {K: "symlink", P: "s0", P2: "sl0"}, {K: "posixrename", P: "pr0", P2: "pr0.to"}, {K: "hardlink", P: "hl0", P2: "hl0.to"}, {K: "openrw", P: "s1"}, {K: "openw", P: "ow0"}}
+	for _, o := range single {
+		out = append(out, mk(o))
+	}
+	return out
+}
+
+// c02FixedIfaces are hand-written pipelines for a request server whose handlers may lack optional interfaces:
+// the requests whose handling depends on them, among READs and WRITEs whose calls are held.
+func c02FixedIfaces() []gProg {
+	mk := func(ops ...gOp) gProg {
+		p := gProg{Server: "rs", Ops: ops}
+		for i := range p.Ops {
+			p.Ops[i].ID = uint32(0x54000000 + 7*(len(ops)-i))
+		}
+		p.Handles = gUsedHandles(p)
+		return p
+	}
+	return []gProg{
+		mk(gOp{K: "statvfs", P: "s0"}, gOp{K: "read", H: "r0", Off: 0, Len: 4096}, gOp{K: "posixrename", P: "pr2", P2: "pr2.to"}, gOp{K: "read", H: "r1", Off: 5, Len: 1}),
+		mk(gOp{K: "lstat", P: "s0"}, gOp{K: "write", H: "w0", Off: 0, Len: 100}, gOp{K: "readlink", P: "lnk"}, gOp{K: "read", H: "r0", Off: 7, Len: 300}),
+		mk(gOp{K: "realpath", P: "s0"}, gOp{K: "read", H: "x0", Off: 0, Len: 512}, gOp{K: "write", H: "x0", Off: 70000, Len: 512}, gOp{K: "openrw", P: "s1"}),
+		mk(gOp{K: "lstat", P: "missing0"}, gOp{K: "stat", P: "s0"}, gOp{K: "read", H: "r0", Off: 64, Len: 64}, gOp{K: "statvfs", P: "missing3"}),
+		mk(gOp{K: "readlink", P: "missing0"}, gOp{K: "realpath", P: "missing/x"}, gOp{K: "read", H: "r1", Off: 3, Len: 9}, gOp{K: "posixrename", P: "missing3", P2: "pr3.to"}),
+		mk(gOp{K: "read", H: "r0", Off: 1, Len: 1}, gOp{K: "lstat", P: "lnk"}, gOp{K: "stat", P: "lnk"}, gOp{K: "rename", P: "rn3", P2: "rn3.to"}, gOp{K: "posixrename", P: "rn3", P2: "rn3.to2"}, gOp{K: "write", H: "w0", Off: 33000, Len: 10}),
+	}
+}
+
+// c02WithOpt is p for a server started with d (paths relative where there is a working directory, every fourth
+// path request in the absolute form nonetheless).
+func c02WithOpt(p gProg, d c02Deal) gProg {
+	q := p
+	q.Ops = append([]gOp(nil), p.Ops...)
+	q.Alloc = d.Alloc
+	d.Opt.apply(&q)
+	if d.Opt.WorkDir {
+		k := 0
+		for i := range q.Ops {
+			if q.Ops[i].P != "" {
+				if k%4 == 3 {
+					q.Ops[i].Abs = true
+				}
+				k++
+			}
+		}
+	}
+	return q
+}
+
 type c02Job struct {
 	Case   gCase `json:"case"`
 	Orders int   `json:"orders,omitempty"` // number of feasible orders of the program (0 = not enumerated)
@@ -574,7 +844,7 @@ func c02Summarise(run *gRun, job c02Job, modelOK bool) gSummary {
 		if rt.Sim.Gate != "" {
 			held++
 		}
-		if rt.HKind == "bogus" || rt.HKind == "stale" || rt.Mismatch || gIsMissing(p.Ops[k].P) {
+		if rt.HKind == "bogus" || rt.HKind == "stale" || rt.Mismatch || rt.Denied || rt.WantCode != 0 || gIsMissing(p.Ops[k].P) {
 			failing = true
 		}
 	}
@@ -588,16 +858,30 @@ func c02Summarise(run *gRun, job c02Job, modelOK bool) gSummary {
 			}
 		}
 	}
+	opt := c02OptOf(p)
+	if !opt.zero() {
+		s.Text = opt.text() + " " + s.Text
+	}
 	s.Nontrivial = held >= 2 || failing
 	hist := func(k string) { s.Hist = append(s.Hist, k) }
 	hist("server=" + p.Server)
 	hist("config=" + p.Server + "/" + cfg.text())
+	hist("options=" + p.Server + "/" + opt.text())
+	for _, t := range opt.tokens() {
+		hist("option=" + p.Server + "/" + t + "/alloc=" + map[bool]string{false: "off", true: "on"}[p.Alloc])
+	}
 	hist(fmt.Sprintf("depth=%02d", len(p.Ops)))
 	hist("mode=" + cs.Mode + "/" + cs.Tag)
 	hist(fmt.Sprintf("held-calls=%02d", held))
 	for k, o := range p.Ops {
 		kind := o.K
 		switch {
+		case run.Routes != nil && run.Routes[k].Denied:
+			kind += "/refused-by-read-only-server"
+		case run.Routes != nil && run.Routes[k].NoCall != "":
+			kind += "/handlers-lack-" + run.Routes[k].NoCall
+		case run.Routes != nil && run.Routes[k].Fallback != "":
+			kind += "/served-by-" + run.Routes[k].Fallback
 		case run.Routes != nil && run.Routes[k].Mismatch:
 			kind += "/wrong-kind-handle"
 		case run.Routes != nil && (run.Routes[k].HKind == "bogus" || run.Routes[k].HKind == "stale"):
@@ -608,6 +892,19 @@ func c02Summarise(run *gRun, job c02Job, modelOK bool) gSummary {
 			kind += "/long-path"
 		}
 		hist("request=" + kind)
+	}
+	if cs.Mode == "gated" {
+		heldBefore := false
+		for k, rt := range run.Routes {
+			switch {
+			case rt.Sim.Gate != "" && (cs.Hold == nil):
+				heldBefore = true
+			case heldBefore && rt.Denied:
+				hist("answered-by-the-server-itself-behind-a-held-call=read-only-refusal/" + p.Ops[k].K)
+			case heldBefore && rt.NoCall != "":
+				hist("answered-by-the-server-itself-behind-a-held-call=no-" + rt.NoCall + "/" + p.Ops[k].K)
+			}
+		}
 	}
 	if job.First && job.Orders > 0 {
 		hist(fmt.Sprintf("programs-with-all-orders-forced/orders=%03d%s", job.Orders, map[bool]string{true: "", false: "(cut)"}[job.All]))
@@ -681,7 +978,7 @@ func c02SizeBucket(n int) string {
 
 func checkC02(c *lib.Ctx) {
 	r := c.R
-	r.Rule = "programs: hand-written depth-4 pipelines, PRNG pipelines of 4…6 mutually independent requests (all 24/120/720 completion orders) and PRNG-drawn pipelines (depth 1…30) over 25 request kinds on open, closed-before, never-issued and wrong-kind handles and on existing/missing paths, ids sequential, descending, random or all equal; every instrumented call (request server: all handler methods; os-backed server: ReadAt/WriteAt/Stat/Readdir/Chmod of the opened files) is held on a gate and the harness opens the gates in a chosen order: ALL feasible completion orders for the small programs, PRNG-chosen orders (uniform, fifo, lifo, earliest-held-longest) for the deep ones, plus un-gated pipelined runs. Big-reply family: servers started with WithAllocator / WithRSAllocator on or off and WithMaxTxPacket / WithRSMaxTxPacket in {default, 65536, 262131, 262132 (longest DATA payload inside / outside an allocator page), 262135, 262136 (DATA reply frame of exactly / one over 256 KiB), 262144, 524288}; five hand-written pipelines per configuration (all completion orders in thorough, the first 6 in quick, on 8 of the 16 configurations) and PRNG pipelines on all 16 in which one request in five has a reply of the largest size: READ of max-tx-1, max-tx, max-tx+1, the page/frame boundary lengths, 300000 and 2^32-1 bytes on a 600000-byte file, READDIR of 120 names of 1400 bytes (request server) / 130 names of 250 bytes (os-backed), REALPATH and READLINK of paths of 131060, 131061 (NAME reply just fits 256 KiB), 131062, 140000, 200000 and 262129 bytes, READLINK of a 4000-byte target, mixed with the ordinary requests. A case = (server, configuration, program, completion order); non-trivial = at least two calls were held at the same time, a failing request is in the stream, or a reply longer than a default server's longest stands among other replies; distinct by (configuration, program shape, read lengths, order)"
+	r.Rule = "options: every program is generated for and run on a server started with an option combination dealt from a shuffled deck — os-backed: ReadOnly() x WithServerWorkingDirectory x WithAllocator; request server: WithStartDirectory x WithRSAllocator x handler set, where the handler set lacks optional interfaces (quick: none, each of StatVFSFileCmder / PosixRenameFileCmder / LstatFileLister / OpenFileWriter / ReadlinkFileLister / RealPathFileLister alone, RealPath in its legacy signature, all lacking; thorough: all 96 combinations). On a read-only server handles are opened for reading only, the WRITEs go to those, and every modifying request (WRITE, SETSTAT, FSETSTAT, REMOVE, MKDIR, RMDIR, RENAME, SYMLINK, posix-rename, hardlink, OPEN with write/creat/trunc) must be answered PERMISSION_DENIED, once, in its turn, without any modifying call on an opened file, while the calls of the served requests around it are held; with a working / start directory the paths are sent relative (one in four absolute); without StatVFSFileCmder statvfs must be answered OP_UNSUPPORTED without a handler call, without the other interfaces the request must reach exactly the fallback method (Filecmd as Rename, Filelist as Stat / Readlink, Filewrite) once and its reply must follow that call's result; hand-written pipelines for read-only servers (18, under working directory x allocator) and for the ten handler sets (6, all orders up to 12 / 120). programs: hand-written depth-4 pipelines, PRNG pipelines of 4…6 mutually independent requests (all 24/120/720 completion orders) and PRNG-drawn pipelines (depth 1…30) over 27 request kinds on open, closed-before, never-issued and wrong-kind handles and on existing/missing paths, ids sequential, descending, random or all equal; every instrumented call (request server: all handler methods; os-backed server: ReadAt/WriteAt/Stat/Readdir/Chmod of the opened files) is held on a gate and the harness opens the gates in a chosen order: ALL feasible completion orders for the small programs, PRNG-chosen orders (uniform, fifo, lifo, earliest-held-longest) for the deep ones, plus un-gated pipelined runs. Big-reply family: servers started with WithAllocator / WithRSAllocator on or off and WithMaxTxPacket / WithRSMaxTxPacket in {default, 65536, 262131, 262132 (longest DATA payload inside / outside an allocator page), 262135, 262136 (DATA reply frame of exactly / one over 256 KiB), 262144, 524288}; five hand-written pipelines per configuration (all completion orders in thorough, the first 6 in quick, on 8 of the 16 configurations) and PRNG pipelines on all 16 in which one request in five has a reply of the largest size: READ of max-tx-1, max-tx, max-tx+1, the page/frame boundary lengths, 300000 and 2^32-1 bytes on a 600000-byte file, READDIR of 120 names of 1400 bytes (request server) / 130 names of 250 bytes (os-backed), REALPATH and READLINK of paths of 131060, 131061 (NAME reply just fits 256 KiB), 131062, 140000, 200000 and 262129 bytes, READLINK of a 4000-byte target, mixed with the ordinary requests. A case = (server, configuration, program, completion order); non-trivial = at least two calls were held at the same time, a failing request is in the stream, or a reply longer than a default server's longest stands among other replies; distinct by (configuration, options, program shape, read lengths, order)"
 	thorough := c.Tier == "thorough"
 	c02Cfg = gCurCfg(c, "pipe", c02Cfg)
 	modelOK := gProbeModel(c, "c02.run "+c02Cfg+" -")
@@ -732,44 +1029,86 @@ func checkC02(c *lib.Ctx) {
 	}
 	idStyles := []string{"seq", "rand", "desc", "same"}
 	for _, server := range []string{"rs", "os"} {
+		// Options: every program is generated for, and run on, a server started with an option combination dealt
+		// from a shuffled deck (os-backed: ReadOnly x working directory x allocator; request server: start directory
+		// x allocator x handler set). The hand-written programs of c02Fixed write through their handles and are
+		// dealt the combinations without ReadOnly; c02FixedRO are the ones for read-only servers.
+		deck := newC02Deck(c.Rand, server, thorough, nil)
+		deckRW := newC02Deck(c.Rand, server, false, func(o c02Opt) bool { return !o.ReadOnly })
+		gen := func() *c02Gen {
+			d := deck.next()
+			g := newC02OptGen(c.Rand, server, d.Opt)
+			g.alloc = d.Alloc
+			return g
+		}
 		for _, p := range c02Fixed(server) {
-			addAll(p, 24, "fixed-4")
+			if thorough {
+				for _, d := range deckRW.all {
+					addAll(c02WithOpt(p, d), 24, "fixed-4")
+				}
+			} else {
+				addAll(c02WithOpt(p, deckRW.next()), 24, "fixed-4")
+			}
+		}
+		if server == "os" {
+			for _, p := range c02FixedRO() {
+				for _, d := range []c02Deal{{c02Opt{ReadOnly: true}, false}, {c02Opt{ReadOnly: true}, true}, {c02Opt{ReadOnly: true, WorkDir: true}, false}, {c02Opt{ReadOnly: true, WorkDir: true}, true}} {
+					addAll(c02WithOpt(p, d), 24, "fixed-read-only")
+				}
+			}
+		} else {
+			limit := 12
+			if thorough {
+				limit = 120
+			}
+			pairs := [][2]bool{{false, false}, {true, true}, {false, true}, {true, false}} // (start directory, allocator)
+			k := 0
+			for _, ifc := range c02IfaceSets(false) {
+				for _, p := range c02FixedIfaces() {
+					for j, wa := range pairs {
+						if thorough || j == k%4 { // quick: one of the four pairs, in rotation
+							addAll(c02WithOpt(p, c02Deal{c02Opt{WorkDir: wa[0], Ifaces: ifc}, wa[1]}), limit, "fixed-handler-interfaces")
+						}
+					}
+					k++
+				}
+			}
 		}
 		nSmall, nPar4, nPar5, nPar6, nMid, nDeep, nFree := 20, 6, 2, 0, 250, 60, 80
 		if thorough {
 			nSmall, nPar4, nPar5, nPar6, nMid, nDeep, nFree = 60, 20, 15, 8, 6000, 2000, 1000
 		}
 		for k := 0; k < nSmall; k++ {
-			addAll(newC02Gen(c.Rand, server).program(4, idStyles[k%4]), 24, "random-4")
+			addAll(gen().program(4, idStyles[k%4]), 24, "random-4")
 		}
 		for k := 0; k < nPar4; k++ {
-			addAll(newC02Gen(c.Rand, server).parallelProgram(4, idStyles[k%4]), 24, "independent-4")
+			addAll(gen().parallelProgram(4, idStyles[k%4]), 24, "independent-4")
 		}
 		for k := 0; k < nPar5; k++ {
-			addAll(newC02Gen(c.Rand, server).parallelProgram(5, idStyles[k%4]), 120, "independent-5")
+			addAll(gen().parallelProgram(5, idStyles[k%4]), 120, "independent-5")
 		}
 		for k := 0; k < nPar6; k++ {
-			addAll(newC02Gen(c.Rand, server).parallelProgram(6, idStyles[k%4]), 720, "independent-6")
+			addAll(gen().parallelProgram(6, idStyles[k%4]), 720, "independent-6")
 		}
 		if thorough {
 			for k := 0; k < 15; k++ {
-				addAll(newC02Gen(c.Rand, server).program(5, idStyles[k%4]), 120, "random-5")
-				addAll(newC02Gen(c.Rand, server).program(6, idStyles[k%4]), 720, "random-6")
+				addAll(gen().program(5, idStyles[k%4]), 120, "random-5")
+				addAll(gen().program(6, idStyles[k%4]), 720, "random-6")
 			}
 		}
 		styles := []string{"uniform", "uniform", "fifo", "lifo", "first-last"}
 		for k := 0; k < nMid; k++ {
-			p := newC02Gen(c.Rand, server).program(1+c.Rand.Intn(12), idStyles[c.Rand.Intn(4)])
+			p := gen().program(1+c.Rand.Intn(12), idStyles[c.Rand.Intn(4)])
 			for j := 0; j < 2; j++ {
 				jobs = append(jobs, gJSON(c02Job{Case: gCase{Prog: p, Mode: "gated", Order: c02RandomOrder(p, c.Rand, styles[c.Rand.Intn(len(styles))]), Tag: "random-order"}}))
 			}
 		}
 		for k := 0; k < nDeep; k++ {
-			p := newC02Gen(c.Rand, server).program(13+c.Rand.Intn(18), idStyles[c.Rand.Intn(4)])
+			p := gen().program(13+c.Rand.Intn(18), idStyles[c.Rand.Intn(4)])
 			jobs = append(jobs, gJSON(c02Job{Case: gCase{Prog: p, Mode: "gated", Order: c02RandomOrder(p, c.Rand, styles[c.Rand.Intn(len(styles))]), Tag: "random-order-deep"}}))
 		}
 		for k := 0; k < nFree; k++ {
-			p := newC02Gen(c.Rand, server).program(1+c.Rand.Intn(30), idStyles[c.Rand.Intn(4)])
+			p := gen().program(1+c.Rand.Intn(30), idStyles[c.Rand.Intn(4)])
 			jobs = append(jobs, gJSON(c02Job{Case: gCase{Prog: p, Mode: "free", Tag: "ungated"}}))
 		}
 
@@ -786,16 +1125,23 @@ func checkC02(c *lib.Ctx) {
 		}
 		for _, cfg := range fixedCfgs {
 			for _, p := range c02BigFixed(server, cfg) {
-				addAll(p, fixedLimit, "big-reply-fixed")
+				d := deckRW.next()
+				d.Alloc = cfg.Alloc
+				addAll(c02WithOpt(p, d), fixedLimit, "big-reply-fixed")
 			}
+		}
+		bigGen := func(cfg c02SrvCfg) *c02Gen {
+			g := newC02BigGen(c.Rand, server, cfg)
+			g.setOpt(deck.next().Opt)
+			return g
 		}
 		for _, cfg := range all {
 			for k := 0; k < nBig; k++ {
-				p := newC02BigGen(c.Rand, server, cfg).program(2+c.Rand.Intn(11), idStyles[c.Rand.Intn(4)])
+				p := bigGen(cfg).program(2+c.Rand.Intn(11), idStyles[c.Rand.Intn(4)])
 				jobs = append(jobs, gJSON(c02Job{Case: gCase{Prog: p, Mode: "gated", Order: c02RandomOrder(p, c.Rand, styles[c.Rand.Intn(len(styles))]), Tag: "big-reply-random-order"}}))
 			}
 			for k := 0; k < nBigFree; k++ {
-				p := newC02BigGen(c.Rand, server, cfg).program(2+c.Rand.Intn(29), idStyles[c.Rand.Intn(4)])
+				p := bigGen(cfg).program(2+c.Rand.Intn(29), idStyles[c.Rand.Intn(4)])
 				jobs = append(jobs, gJSON(c02Job{Case: gCase{Prog: p, Mode: "free", Tag: "big-reply-ungated"}}))
 			}
 		}
@@ -805,6 +1151,7 @@ func checkC02(c *lib.Ctx) {
 	if modelOK {
 		c.Compare("c02", lines, impl)
 	}
+	r.Note("every option combination is replayed in the pipeline model: a request the server refuses or answers by itself (read-only refusal, lacking handler interface) is a request whose handler returns without being held")
 	r.Note("%d programs had all their feasible completion orders enumerated and forced (%d orders in total)", nProg, nOrders)
 
 	c02EndOfStream(c, modelOK)
@@ -858,7 +1205,7 @@ func c02EndOfStream(c *lib.Ctx, modelOK bool) {
 				}
 			} else {
 				g := &gRS{hub: newHub(false), obj: map[string]*gRSFile{}}
-				srv = peers.StartRS(g.handlers())
+				srv = peers.StartRS(g.handlers(gIfaces{}))
 			}
 			if _, err := srv.Handshake(); err != nil {
 				r.Fail(lib.Failure{Kind: "tie", Key: "harness/handshake", What: err.Error()})
